@@ -2,6 +2,7 @@ package main
 
 import (
 	"fmt"
+	"os"
 	"regexp"
 	"sort"
 	"strings"
@@ -224,4 +225,109 @@ func (e *Eng) strLitSubst(t string) string {
 	return strLitRe.ReplaceAllStringFunc(t, func(m string) string {
 		return e.strLit(m[1 : len(m)-1])
 	})
+}
+
+// macroComps maps every prelude define-fun to the heap components it (transitively) mentions.
+func (e *Eng) macroComps() map[string]map[string]bool {
+	if e.macros != nil {
+		return e.macros
+	}
+	e.macros = map[string]map[string]bool{}
+	direct := map[string]map[string]bool{}
+	var names []string
+	for _, p := range e.cs.Prelude {
+		x, err := parseOneSX(p.Text)
+		if err != nil || !x.IsL || len(x.List) < 3 || x.List[0].Atom != "define-fun" {
+			continue
+		}
+		name := x.List[1].Atom
+		at := map[string]bool{}
+		x.atoms(at)
+		direct[name] = at
+		names = append(names, name)
+	}
+	var resolve func(n string, seen map[string]bool) map[string]bool
+	resolve = func(n string, seen map[string]bool) map[string]bool {
+		if r, ok := e.macros[n]; ok {
+			return r
+		}
+		out := map[string]bool{}
+		if seen[n] {
+			return out
+		}
+		seen[n] = true
+		for a := range direct[n] {
+			if _, ok := e.reg.comps[a]; ok {
+				out[a] = true
+			}
+			if strings.HasSuffix(a, ".at") {
+				if _, ok := e.reg.comps[strings.TrimSuffix(a, ".at")]; ok {
+					out[strings.TrimSuffix(a, ".at")] = true
+				}
+			}
+			if _, ok := direct[a]; ok && a != n {
+				for c := range resolve(a, seen) {
+					out[c] = true
+				}
+			}
+		}
+		e.macros[n] = out
+		return out
+	}
+	for _, n := range names {
+		resolve(n, map[string]bool{})
+	}
+	return e.macros
+}
+
+// compsOfText returns the components mentioned (directly or through macros) by the atoms.
+func (e *Eng) compsOfAtoms(at map[string]bool, out map[string]bool) {
+	mc := e.macroComps()
+	for a := range at {
+		if _, ok := e.reg.comps[a]; ok {
+			out[a] = true
+		}
+		if strings.HasSuffix(a, ".at") {
+			if _, ok := e.reg.comps[strings.TrimSuffix(a, ".at")]; ok {
+				out[strings.TrimSuffix(a, ".at")] = true
+			}
+		}
+		if strings.HasPrefix(a, "deref.") {
+			srt := strings.TrimPrefix(a, "deref.")
+			for n, c := range e.reg.comps {
+				if c.Sort == "(Array Int "+srt+")" {
+					out[n] = true
+				}
+			}
+		}
+		if m, ok := mc[a]; ok {
+			for c := range m {
+				out[c] = true
+			}
+		}
+	}
+}
+
+func contractAtoms(c *Contract, at map[string]bool) {
+	if c == nil {
+		return
+	}
+	for _, l := range [][]*Clause{c.Requires, c.Ensures, c.Invs} {
+		for _, cl := range l {
+			cl.Expr.atoms(at)
+		}
+	}
+	if c.SafeUnder != nil {
+		c.SafeUnder.atoms(at)
+	}
+}
+
+func (e *Eng) noteOnce(msg string) {
+	if e.notes == nil {
+		e.notes = map[string]bool{}
+	}
+	if !e.notes[msg] {
+		e.notes[msg] = true
+		fmt.Fprintln(os.Stderr, msg)
+	}
 }
